@@ -232,9 +232,19 @@ impl<D> Serialize for DicomJson<&'_ InMemElement<D>> {
                 // no "Value" nor "InlineBinary" member (PS3.18 F.2.5)
             }
             DicomValue::Primitive(v) => match vr {
+                VR::AT => {
+                    // attribute tags are eight hexadecimal digits (PS3.18 F.2.3)
+                    let tags: Vec<String> = match v {
+                        PrimitiveValue::Tags(tags) => tags
+                            .iter()
+                            .map(|Tag(g, e)| format!("{g:04X}{e:04X}"))
+                            .collect(),
+                        other => other.to_multi_str().into_owned(),
+                    };
+                    serializer.serialize_entry("Value", &tags)?;
+                }
                 VR::AE
                 | VR::AS
-                | VR::AT
                 | VR::CS
                 | VR::DA
                 | VR::DT
